@@ -142,6 +142,21 @@ CheckEquals ==
       bad == (Lv.skipped = 1) # ~enabled \/ (enabled /\ (Lv.ab # e1 \/ Lv.ba # e2))
   IN IF bad THEN Report("EqualsIsLogical", [enabled |-> enabled, ab |-> e1, ba |-> e2], [skipped |-> Lv.skipped, ab |-> Lv.ab, ba |-> Lv.ba]) ELSE TRUE
 
+(* Equals scan: window 1 against every single-bit variant of window 2 (driver command Q).  res[i] is 0/1 =
+   Equals (both directions agreeing), 2 = not both Ok (Equals not issued), 3 = the two directions disagree. *)
+XorBit(b, k) == IF (b \div (2 ^ k)) % 2 = 1 THEN b - 2 ^ k ELSE b + 2 ^ k
+FlipBit(bytes, bit) == [bytes EXCEPT ![(bit \div 8) + 1] = XorBit(@, bit % 8)]
+CheckEqScan ==
+  LET wa == Window(mem, Win(1))
+      wb == Window(mem, Win(2))
+      a == TopView(Tr.t, Tr.ps, wa)
+      aok == VOk(a)
+      exp == [j \in 1..(8 * Len(wb)) |->
+                LET b == TopView(Tr.t, Tr.ps, FlipBit(wb, j - 1)) IN IF aok /\ VOk(b) THEN B01(VEquals(a, b)) ELSE 2]
+      bad == IF Len(Lv.res) # Len(exp) THEN {0} ELSE {j \in 1..Len(exp) : Lv.res[j] # exp[j]}
+  IN IF Lv.skipped = 2 \/ bad = {} THEN TRUE
+     ELSE Report("EqualsScan", [bits |-> {j - 1 : j \in bad}, expected |-> exp], Lv.res)
+
 CheckCopy ==
   LET dst == Win(Lv.dst)
       src == Win(Other(Lv.dst))
@@ -240,6 +255,7 @@ Checked ==
          [] Lv.e = "mem" -> CheckSetMem
          [] Lv.e = "wr" -> CheckWrite
          [] Lv.e = "eq" -> CheckEquals
+         [] Lv.e = "eqs" -> CheckEqScan
          [] Lv.e = "cp" -> CheckCopy
          [] Lv.e = "text" -> CheckText
 
